@@ -58,6 +58,8 @@ PROP = {
             "harnesses": [
                 H("c08_reply_budget_l9216", "B", bound="offender length symbolic <= 9216 (zero bytes), any v4/v6 addresses",
                   what="required reply size <= 1232 for long offenders", timeout=1200),
+                H("c08_inbound_error_total_n64", "B", bound="datagram <= 64 B (all bytes and length symbolic) x all v4/v6 peers",
+                  what="create_inbound_scmp_error total on every policy error incl. truncated datagrams; quote is a prefix; pointer inside the header", timeout=1800),
             ],
         },
     ],
